@@ -381,6 +381,39 @@ class UCSReplication(MessagePassingComputation):
 
         return self._replication_computations_cache
 
+    def _unknown_neighbors(self) -> List[ComputationName]:
+        """
+        Neighbor computations (of our computations) for which the hosting
+        agent has not been discovered yet.
+        """
+        unknown = []
+        for c_def, _ in self.computations.values():
+            for neighbor_name in c_def.node.neighbors:
+                if neighbor_name in self.computations or neighbor_name in unknown:
+                    continue
+                try:
+                    self.discovery.computation_agent(neighbor_name)
+                except UnknownComputation:
+                    unknown.append(neighbor_name)
+        return unknown
+
+    def _when_neighbors_known(self, unknown: List[ComputationName], action):
+        """
+        Call `action` once the agents hosting all the `unknown` neighbor
+        computations have been discovered.
+        """
+        pending = set(unknown)
+
+        def _on_neighbor(_evt, computation, _agent):
+            pending.discard(computation)
+            if not pending:
+                action()
+
+        for neighbor_name in unknown:
+            self.discovery.subscribe_computation(
+                neighbor_name, _on_neighbor, one_shot=True
+            )
+
     def add_computation(self, comp_def: ComputationDef, footprint: float):
         """
         Add a new computation to be replicated.
@@ -472,6 +505,19 @@ class UCSReplication(MessagePassingComputation):
                 self.logger.error(msg)
                 raise ValueError(msg)
 
+        unknown = self._unknown_neighbors()
+        if unknown:
+            # The lookups for the agents hosting some of our neighbors are
+            # still in progress: these agents are the targets of the
+            # replication paths, start once they are known.
+            self.logger.info(
+                f"Postpone replication of {computations} until the hosts of {unknown} are known"
+            )
+            self._when_neighbors_known(
+                unknown, lambda: self.replicate(k_target, computations)
+            )
+            return
+
         self._replication_in_progress.add(computations)
         neighbors = self.replication_neighbors()
         if not neighbors:
@@ -540,6 +586,15 @@ class UCSReplication(MessagePassingComputation):
                 self.logger.debug(
                     f"Received replication request from {sender_name}, {msg}"
                 )
+            unknown = self._unknown_neighbors()
+            if unknown:
+                # A request from another agent may reach us before our own
+                # neighbors lookups are answered: extending the paths now
+                # would miss some agents, handle it once they are known.
+                self._when_neighbors_known(
+                    unknown, lambda: self._on_replicate_msg(sender_name, msg, _)
+                )
+                return
             self.on_replicate_request(
                 msg.budget,
                 msg.spent,
